@@ -227,7 +227,7 @@ def _chunk(args):
     return out
 
 
-def run(report, tier, seed):
+def run(report, tier, seed, want=None):
     import multiprocessing
     res = tlc.run("MC_cli", "MC_cli_%s.cfg" % tier, "cli-" + report.prop, workers=16, timeout=3000)
     tlc.require_ok(res, "MC_cli")
@@ -255,7 +255,8 @@ def run(report, tier, seed):
     byid = {e["id"]: e for e in events}
     for b in bad1 + bad2:
         for clause in b["clauses"]:
-            report.failure(clause, b["sig"], {"kind": "cli", "event": byid[b["id"]], "seed": seed})
+            if want is None or clause in want:
+                report.failure(clause, b["sig"], {"kind": "cli", "event": byid[b["id"]], "seed": seed})
     st = res["stats"]
     cov = {"states": st.get("distinct", 0) + j1["states"] + j2["states"], "transitions": st.get("generated", 0),
            "traces_validated_against_impl": j1["judged"] + j2["judged"], "exhaustive": True,
